@@ -320,6 +320,8 @@ class World:
                 return self.call(ex, self.wrap_func(fi, fi.module, bound=f), args, kwargs, site)
         if is_node(f):
             return self.node_dunder(ex, f, "__call__", args)
+        if f is None or isinstance(f, (int, str, bool, tuple, list)):
+            raise PyRaise(ExcVal("TypeError", ("object is not callable",)))
         raise Unsupported("call of %r" % (f,))
 
     def _is_entry(self, ex, q):
@@ -431,7 +433,18 @@ class World:
                 elif d.eq(S.nargs):
                     self.learn(ex, a.arg(0), k=b.as_long())
 
-    def learn(self, ex, t, op=None, k=None):
+    def learn(self, ex, t, op=None, k=None, raw=False):
+        """raw=True: only record operator/arity (node under construction: the
+        node invariant is what is being established, it must not be assumed)"""
+        if raw:
+            st = ex.ghost.setdefault("nodeinfo", {})
+            info = st.setdefault(t.get_id(), {"t": t, "op": None, "k": None})
+            if op is not None:
+                info["op"] = op
+            if k is not None:
+                info["k"] = k
+            ex.unfolded.add(t.get_id())
+            return
         self.touch(ex, t)
         st = ex.ghost.setdefault("nodeinfo", {})
         key = t.get_id()
